@@ -79,11 +79,16 @@ class StampMonitor:
         self.clock = 0
         self.w = {}
         self.x = {}
+        self.wround = {}   # expansion round (matcher.expand_now) in which an entry was last replaced in place
+        self.xk = {}   # last expansion of ANY object filed under a lattice key (a candidate object that was merged into the
+        #                stored entry of that key is expanded in its place by the non-emitting search)
         self.installed = False
 
     def reset(self):
         self.w.clear()
         self.x.clear()
+        self.xk.clear()
+        self.wround.clear()
 
     def install(self):
         mon = self
@@ -94,6 +99,10 @@ class StampMonitor:
         def nxt(self_e, *a, **kw):
             mon.clock += 1
             mon.x[id(self_e)] = mon.clock
+            try:
+                mon.xk[self_e.key] = mon.clock
+            except Exception:
+                pass
             r = mon.orig_next(self_e, *a, **kw)
             if r is not None:
                 mon.clock += 1
@@ -110,11 +119,41 @@ class StampMonitor:
         def upd(self_e, m_other):
             mon.clock += 1
             mon.w[id(self_e)] = mon.clock
+            try:
+                mon.wround[id(self_e)] = self_e.matcher.expand_now
+            except Exception:
+                pass
             return mon.orig_upd(self_e, m_other)
+
+        # an entry also counts as expanded when the search took it up for expansion but every move was filtered before next()
+        # was called (no-revisit rule of non-emitting runs, going-back filters): the two non-emitting steps iterate a dict
+        # of the entries they expand
+        self.orig_ne_inner = B.BaseMatcher._match_non_emitting_states_inner
+        self.orig_ne_end = B.BaseMatcher._match_non_emitting_states_end
+
+        def _mark(matcher, cur_lattice):
+            try:
+                for m_ in cur_lattice.values():
+                    if not (m_.stop or m_.delayed > matcher.expand_now):
+                        mon.clock += 1
+                        mon.x[id(m_)] = mon.clock
+                        mon.xk[m_.key] = mon.clock
+            except Exception:
+                pass
+
+        def ne_inner(self_m, cur_lattice, *a, **kw):
+            _mark(self_m, cur_lattice)
+            return mon.orig_ne_inner(self_m, cur_lattice, *a, **kw)
+
+        def ne_end(self_m, cur_lattice, *a, **kw):
+            _mark(self_m, cur_lattice)
+            return mon.orig_ne_end(self_m, cur_lattice, *a, **kw)
 
         B.BaseMatching.next = nxt
         B.BaseMatching.first = classmethod(first)
         B.BaseMatching._update_inner = upd
+        B.BaseMatcher._match_non_emitting_states_inner = ne_inner
+        B.BaseMatcher._match_non_emitting_states_end = ne_end
         self.installed = True
 
     def uninstall(self):
@@ -122,6 +161,8 @@ class StampMonitor:
             B.BaseMatching.next = self.orig_next
             B.BaseMatching.first = classmethod(self.orig_first)
             B.BaseMatching._update_inner = self.orig_upd
+            B.BaseMatcher._match_non_emitting_states_inner = self.orig_ne_inner
+            B.BaseMatcher._match_non_emitting_states_end = self.orig_ne_end
             self.installed = False
 
 
